@@ -995,16 +995,16 @@ func c24GenFlow(t *rapid.T) c24FlowCase {
 // ---------------------------------------------------------------- generators
 
 func c24GenTraffic(t *rapid.T, ops *[]c24Op) {
-	switch rapid.IntRange(0, 11).Draw(t, "traffic") {
-	case 0: // count edge
+	switch 47 - rapid.IntRange(0, 47).Draw(t, "traffic") { // rapid favours small draws: keep the heavy cases rare
+	case 1, 4: // count edge
 		*ops = append(*ops, c24Op{K: "bulk", N: rapid.SampledFrom([]int{1020, 1023, 1024}).Draw(t, "n"), Size: rapid.IntRange(0, 3).Draw(t, "sz")})
-	case 1: // byte edge: k MiB-sized messages, then the remainder around the cap
+	case 0, 3: // byte edge: k MiB-sized messages, then the remainder around the cap
 		mib := 1024 * 1024
 		*ops = append(*ops, c24Op{K: "bulk", N: 3, Size: mib})
 		*ops = append(*ops, c24Op{K: "msg", Size: mib + rapid.SampledFrom([]int{-2, -1, 0, 1}).Draw(t, "edge")})
 	case 2:
 		*ops = append(*ops, c24Op{K: "msg", Size: rapid.SampledFrom([]int{c24MaxBytes - 1, c24MaxBytes, c24MaxBytes + 1, 3 * 1024 * 1024}).Draw(t, "big")})
-	case 3:
+	case 5, 6, 7, 8, 9, 10, 11, 12:
 		*ops = append(*ops, c24Op{K: "bulk", N: rapid.IntRange(2, 40).Draw(t, "n"), Size: rapid.IntRange(0, 64).Draw(t, "sz")})
 	default:
 		*ops = append(*ops, c24Op{K: "msg", Size: rapid.SampledFrom([]int{0, 1, 2, 5, 17, 300}).Draw(t, "sz")})
@@ -1013,17 +1013,26 @@ func c24GenTraffic(t *rapid.T, ops *[]c24Op) {
 
 func c24GenConfig(t *rapid.T) c24Case {
 	var ops []c24Op
-	n := rapid.IntRange(2, 14).Draw(t, "nops")
-	if rapid.IntRange(0, 5).Draw(t, "noTargetFirst") > 0 {
-		ops = append(ops, c24Op{K: "target"})
-	}
-	for len(ops) < n {
-		switch k := rapid.IntRange(0, 9).Draw(t, "kind"); {
-		case k == 0:
+	// segments: (new in-flight backend) early traffic, backend ready, later traffic; a further
+	// segment models the fallback to the next server while the client is still in configuration
+	for seg, n := 0, rapid.IntRange(1, 3).Draw(t, "segments"); seg < n; seg++ {
+		if seg > 0 || rapid.IntRange(0, 5).Draw(t, "targetFirst") > 0 {
 			ops = append(ops, c24Op{K: "target"})
-		case k <= 2:
-			ops = append(ops, c24Op{K: "ready"})
+		}
+		for i, k := 0, rapid.IntRange(0, 4).Draw(t, "early"); i < k; i++ {
+			c24GenTraffic(t, &ops)
+		}
+		if seg == 0 && len(ops) > 0 && ops[0].K != "target" {
+			ops = append(ops, c24Op{K: "target"}) // messages sent before any backend was chosen
+		}
+		switch rapid.IntRange(0, 5).Draw(t, "readiness") {
+		case 0: // this backend never becomes ready (connect failed)
+		case 1:
+			ops = append(ops, c24Op{K: "ready"}, c24Op{K: "ready"})
 		default:
+			ops = append(ops, c24Op{K: "ready"})
+		}
+		for i, k := 0, rapid.IntRange(0, 3).Draw(t, "late"); i < k; i++ {
 			c24GenTraffic(t, &ops)
 		}
 	}
@@ -1032,17 +1041,36 @@ func c24GenConfig(t *rapid.T) c24Case {
 
 func c24GenPlay(t *rapid.T) c24Case {
 	var ops []c24Op
-	n := rapid.IntRange(2, 16).Draw(t, "nops")
-	for len(ops) < n {
-		switch k := rapid.IntRange(0, 13).Draw(t, "kind"); {
-		case k == 0:
+	// segments: the handshake is reset (server switch away from a modded backend), the client
+	// sends early messages, readiness arrives (handshake completes and/or JoinGame), later traffic
+	for seg, n := 0, rapid.IntRange(1, 3).Draw(t, "segments"); seg < n; seg++ {
+		if rapid.IntRange(0, 9).Draw(t, "reset") > 0 {
 			ops = append(ops, c24Op{K: "reset"})
-		case k <= 3:
-			ops = append(ops, c24Op{K: "fml"})
-		case k <= 6:
+		}
+		for i, k := 0, rapid.IntRange(0, 3).Draw(t, "early"); i < k; i++ {
+			c24GenTraffic(t, &ops)
+			if rapid.IntRange(0, 3).Draw(t, "fmlBetween") == 0 {
+				ops = append(ops, c24Op{K: "fml"})
+			}
+		}
+		switch rapid.IntRange(0, 3).Draw(t, "readiness") {
+		case 0:
+			for i := 0; i < 6; i++ {
+				ops = append(ops, c24Op{K: "fml"})
+			}
+		case 1:
+			for i, k := 0, rapid.IntRange(0, 5).Draw(t, "partial"); i < k; i++ {
+				ops = append(ops, c24Op{K: "fml"})
+			}
 			ops = append(ops, c24Op{K: "join"})
 		default:
+			ops = append(ops, c24Op{K: "join"})
+		}
+		for i, k := 0, rapid.IntRange(0, 2).Draw(t, "late"); i < k; i++ {
 			c24GenTraffic(t, &ops)
+		}
+		if rapid.IntRange(0, 2).Draw(t, "joinAfter") == 0 {
+			ops = append(ops, c24Op{K: "join"})
 		}
 	}
 	return c24Case{Ops: ops}
